@@ -113,11 +113,22 @@ def _body_items(body):
     }
     if w != '-':
         ns.update(wtab[w]())
-    m = body.get('m', '-')
-    if m == 'bare':
-        ns['visibility'] = 'expert'
-    elif m == 'group':
-        ns['group'] = 'modgroup'
+    m = body.get('m', '-')       # MODULE properties overridden by a bare class attribute or by a new Property(...)
+    from frappy.core import Property
+    mtab = {
+        'bare': lambda: {'visibility': 'expert'},
+        'bare2': lambda: {'visibility': 'advanced'},
+        'group': lambda: {'group': 'modgroup'},
+        'group2': lambda: {'group': 'othergroup'},
+        'slow': lambda: {'slowinterval': 30},
+        'slow2': lambda: {'slowinterval': 60},
+        'cust': lambda: {'cust': 3},
+        'cust2': lambda: {'cust': 5},
+        'prop': lambda: {'group': Property('optional group the module belongs to', StringType(), default='',
+                                           extname='group', value='propgroup')},
+    }
+    if m != '-':
+        ns.update(mtab[m]())
     return ns
 
 
@@ -126,7 +137,9 @@ def _composites():
     from frappy.core import ArrayOf, EnumType, FloatRange, IntRange, Parameter, ScaledInteger, StructOf, TupleOf
     from frappy.datatypes import LimitsType, TextType
     from frappy.params import Limit
+    from frappy.core import Property
     return {
+        'cust': Property('a custom module property', IntRange(0, 9), default=0, extname='_cust'),
         'txt': Parameter('a text', TextType(), default=''),
         'sc': Parameter('scaled', ScaledInteger(0.5, 0, 10, unit='$'), default=0, readonly=False),
         'en': Parameter('an enum', EnumType('mode', off=0, on=1), default=0, readonly=False),
@@ -307,6 +320,8 @@ def describe_instance(obj):
         acc['p']['write'] = ''.join(res)
     return _intern({
         'order': list(obj.accessibles), 'acc': acc, 'modprops': ex,
+        'allprops': {pn: repr(obj.propertyValues.get(pn, po.default)) for pn, po in obj.propertyDict.items()
+                     if pn != 'implementation'},
         'names': sorted(obj.accessiblename2attr.items(), key=repr), 'writedict': sorted(obj.writeDict),
         'inputs': sorted(getattr(obj, 'inputCallbacks', None) or ()),
     })
@@ -487,7 +502,7 @@ def random_program(rnd, nclasses, ninst, nmut):
             body = {'mixin': False, 'p': '-', 'q': '-', 'c': '-', 'm': '-', 'v': '-'}
             for _ in range(rnd.choice([0, 1, 1, 2])):
                 f = rnd.choice('ppqvcmw')
-                body[f] = rnd.choice({'p': P_DER, 'q': Q_DER, 'v': V_DER, 'c': C_DER, 'm': ['bare', 'group'],
+                body[f] = rnd.choice({'p': P_DER, 'q': Q_DER, 'v': V_DER, 'c': C_DER, 'm': ['bare', 'bare2', 'group', 'group2', 'slow', 'slow2', 'cust', 'cust2', 'prop'],
                                       'w': ['arrmax', 'scmax', 'txt', 'enum']}[f])
             modcls.append(x)
         classes.append(x)
@@ -614,8 +629,9 @@ def run(chk):
                             timeout=1000))
     # spec -> code: TLC's programs
     behs = []
-    for cfg in (('Gen_ClassModel_quick.cfg', 'Gen_ClassModel_quick_hier.cfg') if quick else
-                ('Gen_ClassModel_thorough.cfg', 'Gen_ClassModel_thorough_hier.cfg')):
+    for cfg in (('Gen_ClassModel_quick.cfg', 'Gen_ClassModel_quick_hier.cfg', 'Gen_ClassModel_quick_mprop.cfg') if quick else
+                ('Gen_ClassModel_thorough.cfg', 'Gen_ClassModel_thorough_hier.cfg',
+                 'Gen_ClassModel_thorough_mprop.cfg')):
         r, part = emit_behaviours('Gen_ClassModel', cfg, maximal_only=False, timeout=1000)
         chk.add_tlc(r)
         behs += part
